@@ -771,7 +771,7 @@ CLAUSES = [
 ] + [
     # the runner gives one worker per 20 cases of a clause; a batch case costs a round of interpreters, so the
     # batches are spread over N_HASH_CLAUSES identically defined clauses (independent seeds) to run side by side
-    Clause("hashseed_%d" % i, c_hashseed, s_hashseed, quick=3, thorough=80, nt_floor=0.5,
+    Clause("hashseed_%d" % i, c_hashseed, s_hashseed, quick=3, thorough=80, nt_floor=0.3,
            rule="one case = a batch of 25..35 small labelled-graph cases; executed in-process (set model again) and in "
                 "4 (thorough: 8) separate interpreters with different PYTHONHASHSEED; canonical dumps must be byte-identical; "
                 "non-trivial: >= 5 selections in the batch keep >= 2 labels")
